@@ -21,11 +21,15 @@ import time
 
 VERIF = os.path.dirname(os.path.dirname(os.path.abspath(__file__)))
 SIM = os.path.join(VERIF, "sim")
-BIN = os.path.join(VERIF, "target", "release", "cactus-sim")
-EVID = os.path.join(VERIF, "evidence")
-REPLAYS = os.path.join(VERIF, "replays")
+# The self-test runs the same driver against a scratch copy of the repository: it then
+# overrides the binary and the output directories, and nothing under /verif or /repo
+# is touched. Registered checks never set these.
+BIN = os.environ.get("VERIF_SELFTEST_BIN") or os.path.join(VERIF, "target", "release", "cactus-sim")
+_OUT = os.environ.get("VERIF_SELFTEST_OUT")
+EVID = os.path.join(_OUT, "evidence") if _OUT else os.path.join(VERIF, "evidence")
+REPLAYS = os.path.join(_OUT, "replays") if _OUT else os.path.join(VERIF, "replays")
 FINDINGS = os.path.join(VERIF, "known_findings.json")
-SCRATCH = os.path.join(VERIF, "target", "scratch")
+SCRATCH = os.path.join(_OUT, "scratch") if _OUT else os.path.join(VERIF, "target", "scratch")
 
 SIM_PROFILES = ["C01", "C02", "C03", "C04", "C05", "C06", "C07", "C08", "C09", "C10", "C11", "C12", "C13", "C14", "C16"]
 
@@ -71,6 +75,8 @@ def eprint(*a):
 
 
 def build():
+    if os.environ.get("VERIF_SELFTEST_BIN"):
+        return
     env = dict(os.environ, CARGO_NET_OFFLINE="true")
     r = subprocess.run(["cargo", "build", "--release", "--offline"], cwd=SIM, env=env, stdout=subprocess.PIPE, stderr=subprocess.STDOUT, text=True)
     if r.returncode != 0:
